@@ -231,6 +231,8 @@ impl<'a, Version, Purpose> Default for PasetoParser<'a, Version, Purpose> {
                 time::OffsetDateTime::parse(val, &Rfc3339).map_err(|_| PasetoClaimError::RFC3339Date(val.to_string()))?;
             //get the current datetime
             let now = time::OffsetDateTime::now_utc();
+            #[cfg(rusty_paseto_verif)]
+            let now = crate::verif::now_or(now);
 
             //here we do the actual validation check for the expiration claim
             if datetime <= now {
@@ -254,6 +256,8 @@ impl<'a, Version, Purpose> Default for PasetoParser<'a, Version, Purpose> {
                     time::OffsetDateTime::parse(val, &Rfc3339).map_err(|_| PasetoClaimError::RFC3339Date(val.to_string()))?;
                 //get the current datetime
                 let now = time::OffsetDateTime::now_utc();
+                #[cfg(rusty_paseto_verif)]
+                let now = crate::verif::now_or(now);
 
                 //here we do the actual validation check for the expiration claim
                 if now <= not_before_time {
